@@ -4,7 +4,7 @@
 From Coq Require Import List ZArith Bool.
 From Coq.Strings Require Import Byte.
 Import ListNotations.
-From SV Require Import Text G_attr C18_Model C18_Heap C18_Lemmas C18_Good C18_HeapLemmas C18_HeapOps C18_Refine C18_Obj C18_ObjLemmas C18_ObjIso C18_ObjElems G_c18_str C18_Conv.
+From SV Require Import Text G_attr C18_Model C18_Heap C18_Lemmas C18_Good C18_HeapLemmas C18_HeapOps C18_Refine C18_Obj C18_ObjLemmas C18_ObjIso C18_ObjElems G_c18_str C18_Conv C18_ObjMore C18_ObjTotal.
 
 (* --- Attr/Meta as a mapping: get after set (the stored value is the recursively converted one) --- *)
 Theorem C18_get_set_same : forall g kvs k v, is_attr g = true ->
@@ -489,3 +489,39 @@ Example C18_witness_obj_sort : let s := oexec [ONew 0 demo_basket] oinit in
   exists s' l c c', ostep (OInpl None FSortLen 0 []) s = inl (s', HRef l) /\ oreg s 0 = HRef l /\ nth_error (fst s) l = Some c /\
     ocls c = KBasket /\ nth_error (fst s') l = Some c' /\ oes c' = rev (oes c) /\ length (oes c) = 2.
 Proof. exact demo_sort. Qed.
+
+(* operations documented as not in-place (copy, slicing, +, filter) return a NEW object: one that did not exist before *)
+Theorem C18_obj_pure_returns_new : forall i f j q s s' r, f <> PGet -> ostep (OPure i f j q) s = inl (s', r) ->
+  exists a, r = HRef a /\ length (fst s) <= a /\ nth_error (fst s) a = None.
+Proof. exact pure_returns_new. Qed.
+Print Assumptions C18_obj_pure_returns_new.
+
+(* WRITE FOOTPRINT: let M be ANY set of existing objects that contains the objects held by the operand variables and is closed
+   under references (for instance everything reachable from the operands); then the operation changes no object outside M *)
+Theorem C18_obj_step_footprint : forall (M : nat -> bool) o s s' r,
+  (forall l c, nth_error (fst s) l = Some c -> M l = true ->
+     Forall (fun v => match v with HRef a => a < length (fst s) /\ M a = true | _ => True end) (ocell_vals c)) ->
+  (forall k a, In k (op_regs o) -> oreg s k = HRef a -> a < length (fst s) /\ M a = true) ->
+  ostep o s = inl (s', r) ->
+  forall l, l < length (fst s) -> M l = false -> nth_error (fst s') l = nth_error (fst s) l.
+Proof. exact ostep_footprint. Qed.
+Print Assumptions C18_obj_step_footprint.
+
+Theorem C18_obj_interp_footprint : forall side c kn h h' r,
+  fresh_true side (length h) -> closed_true side h -> known_ok side (length h) kn ->
+  interp c kn h = inl (h', r) ->
+  closed_true side h' /\ length h <= length h' /\ okv side (length h') true r /\
+  (forall l, side l = false -> nth_error h' l = nth_error h l).
+Proof. exact interp_footprint. Qed.
+Print Assumptions C18_obj_interp_footprint.
+
+(* copy() never leaves the modelled domain: on a heap without dangling references the fuelled DFS terminates within its fuel
+   with a closed reachable set, so the graph copy of every existing object succeeds -- on every reachable state *)
+Theorem C18_obj_graph_copy_total : forall h l, oheap_ok h -> l < length h -> exists h' l', graph_copy h l = Some (h', l').
+Proof. exact graph_copy_total. Qed.
+Print Assumptions C18_obj_graph_copy_total.
+
+Theorem C18_obj_copy_succeeds : forall pre l, let s := oexec pre oinit in
+  l < length (fst s) -> exists h' l', graph_copy (fst s) l = Some (h', l').
+Proof. exact copy_succeeds. Qed.
+Print Assumptions C18_obj_copy_succeeds.
